@@ -17,6 +17,12 @@ CLAIMED = {
  "C03": dict(engine="Lifecycle", design="6 C03", text=LIFE_TEXT + "plus Schedule.tla: TLC enumerates every assignment/order of a 3-meter batch on up to 3 cold worker processes x thread counts x warm kinds; sampled schedules run as real OS processes; one interp map over the whole batch demands one hash per (family, profile, seed, baseline).", note=LIFE_NOTE + " OS-level timing interleavings are not controlled."),
  "C04": dict(engine="Lifecycle", design="6 C04", text=LIFE_TEXT + "clauses: fit returns or raises DataSufficiencyError exactly when the data carries a disqualification and the override is off; predict's outcome class follows Faults(model, data, flags); the model carries the data's and the poor-fit disqualification; the gate survives save/restart/load.", note=LIFE_NOTE + " Decided for the three gated families (daily, billing, hourly)."),
  "C05": dict(engine="Lifecycle", design="6 C05", text=LIFE_TEXT + "clause PredSameAcrossObservedVariants: probe vectors of predictions for observed-variants {orig, x3, shuffled, 30% NaN, all NaN, absent} of the same weather must agree wherever both produce a value; a variant may not make predict raise.", note=LIFE_NOTE + " Compared at 48 probe timestamps per report plus the full-column hash per variant."),
+ "C06": dict(engine="Clock", design="6 C06", text="ClockDefs.tla states the hourly 24-slot normalisation (day kinds N, S@h, F@h) with a P-layer (one value per real clock hour from the slot of its own day and hour) and an I-layer transcribing _get_dst_indices/_transform_dst; TLC checks I => P over all day-kind sequences of four zone classes. Every enumerated sequence is replayed at function level (real functions, slot-number codes decoded to labels) and API level (HourlyModel.predict on real contiguous frames around real transitions found with zoneinfo, observed present/blank/absent) and judged by TLC (ClockTrace); thorough sweeps the normalisation step over every 23/25-hour day of every IANA zone 2000-2037. The daily/billing half (row per timestamp, finite exactly on usable rows) is the RowFrame stage.",
+             note="Trusted: TLC, zoneinfo's tz database as the source of real transitions, the label decoding in drivers/clock.py. Half-hour clock changes (Australia/Lord_Howe) are outside the three day kinds: recorded as an open known finding, judged only by row count and outcome."),
+ "C07": dict(engine="RowFrame", design="6 C07", text="RowFrameDefs.tla states per-row presence (predicted exactly on usable rows, observed masked together, observed column iff supplied), the documented formula on integer parameters and the column-sum identities; TLC enumerates every pattern of <= 5 rows over temperature {finite, NaN, +-inf} x usage {value, missing} for daily and billing; each is embedded in real reporting frames (4 zones, 30-366 days / calendar months) and predicted with constructed integer documents; recorded frames are re-measured on the data object and judged row by row by TLC (RowFrameTrace).",
+             note="Trusted: TLC, integer exactness of the realisation (all values exact in binary64), drivers/rowframe.py projection. Single-sub-model documents (routing is C13)."),
+ "C19": dict(engine="Agg", design="6 C19", text="AggDefs.tla states monthly / bi-monthly aggregation as sums, mean (rational) and root-sum-square (squared) of the daily rows of the same call, one row per calendar period, totals conserved, other arguments rejected; Agg.tla enumerates layouts (start dates incl. month ends and leap day, spans, gap and observed patterns, 7-10 argument spellings) with the civil calendar of Cal.tla and checks the oracle's own level-agreement theorems; every layout is realised as a billing reporting object in 4 zones, predicted at both levels and judged by TLC (AggTrace).",
+             note="Trusted: TLC, Cal.tla, drivers/agg.py (integer realisation; rational snapping of means with limit_denominator(1000))."),
  "C20": dict(engine="Window", design="6 C20", text="TLC enumerates every abstract window call on an integer timeline (I-layer = transform.py as written, checked against the P-layer clauses); a seeded sample of those calls (thorough: 150k x 4 shapes) is executed on the real get_baseline_data/get_reporting_data and every recorded outcome is judged by TLC against the P-layer (WindowTrace).",
              note="Trusted: TLC, the projection in drivers/window.py (index mapping, equality of values), the reading decisions listed in the evidence assumptions. Spec-level exhaustiveness is relative to MaxT/MaxLen; real sizes are reached by scaling only."),
 }
